@@ -127,8 +127,6 @@ HARNESSES = {
                                   "bound": "all string values of <= 3 raw bytes, any declared metadata length"},
     "u17_from_raw_string_valid_t": {"crate": "automerge", "file": "rust/automerge/src/op_set2/types.rs", "fn": "ScalarValue::from_raw (string arm)", "mode": "bounded",
                                     "bound": "all string values of <= 4 raw bytes, any declared metadata length", "tier": "thorough"},
-    "u30_legacy_rle_step_total": {"crate": "automerge", "file": "rust/automerge/src/columnar/encoding/rle.rs", "fn": "RleDecoder::try_next (legacy change-chunk column decoder)", "mode": "bounded", "timeout_s": 900,
-                                  "bound": "every 10-byte run header (9 continuation bytes + final byte, all payload bits symbolic) followed by two arbitrary bytes, one step"},
     "u15_raw_read_bytes": {"crate": "automerge", "file": "rust/automerge/src/columnar/encoding/raw.rs", "fn": "RawDecoder::read_bytes", "mode": "bounded",
                            "bound": "8-byte buffer, every offset inside it, every length < 2^60 (the range of a value-metadata length)"},
     # ---- U12 range normalisation
